@@ -19,6 +19,7 @@ from lib import cZ, chex, clist, cnat
 # --------------------------------------------------------------------------------------
 BASE = ['int', 'nat', 'string', 'bool', 'unit']
 T_INT, T_NAT, T_STRING, T_BOOL, T_UNIT = (('int',), ('nat',), ('string',), ('bool',), ('unit',))
+T_BYTES = ('bytes',)
 T_OP = ('operation',)
 
 
@@ -28,7 +29,7 @@ def ty_mich(t) -> str:
     return '(' + t[0] + ' ' + ' '.join(ty_mich(x) for x in t[1:]) + ')'
 
 
-_TYC = {'int': 'TInt', 'nat': 'TNat', 'string': 'TString', 'bool': 'TBool', 'unit': 'TUnit', 'operation': 'TOperation',
+_TYC = {'int': 'TInt', 'nat': 'TNat', 'string': 'TString', 'bytes': 'TBytes', 'bool': 'TBool', 'unit': 'TUnit', 'operation': 'TOperation',
         'pair': 'TPair', 'option': 'TOption', 'or': 'TOr', 'list': 'TList'}
 
 
@@ -63,6 +64,8 @@ def data_mich(d, paren: bool = True) -> str:
         return str(d[1])
     if k == 'str':
         return mich_str(d[1])
+    if k == 'bytes':
+        return '0x' + d[1].hex()
     if k == 'bool':
         return 'True' if d[1] else 'False'
     if k == 'unit':
@@ -90,6 +93,8 @@ def data_coq(d) -> str:
         return f'(DInt {cZ(d[1])})'
     if k == 'str':
         return f'(DStr {chex(d[1].encode("ascii"))})'
+    if k == 'bytes':
+        return f'(DBytes {chex(d[1])})'
     if k == 'bool':
         return f'(DBool {"true" if d[1] else "false"})'
     if k == 'unit':
@@ -110,7 +115,8 @@ def data_coq(d) -> str:
 
 
 NULLARY = ['SWAP', 'PAIR', 'UNPAIR', 'CAR', 'CDR', 'SOME', 'UNIT', 'CONS', 'SIZE', 'ADD', 'SUB', 'MUL', 'NEG', 'ABS', 'ISNAT',
-           'INT', 'EDIV', 'COMPARE', 'EQ', 'NEQ', 'LT', 'GT', 'LE', 'GE', 'AND', 'OR', 'XOR', 'NOT', 'CONCAT', 'FAILWITH']
+           'INT', 'EDIV', 'COMPARE', 'EQ', 'NEQ', 'LT', 'GT', 'LE', 'GE', 'AND', 'OR', 'XOR', 'NOT', 'CONCAT', 'FAILWITH',
+           'LSL', 'LSR', 'SLICE']
 
 
 def code_mich(i, rng: random.Random | None = None) -> str:
@@ -195,7 +201,7 @@ def comparable(t) -> bool:
 
 def gen_type(rng: random.Random, depth: int = 2, comparable_only: bool = False):
     if depth <= 0 or rng.random() < 0.45:
-        return (rng.choice(['int', 'int', 'nat', 'nat', 'string', 'bool', 'unit']),)
+        return (rng.choice(['int', 'int', 'nat', 'nat', 'string', 'bytes', 'bool', 'unit']),)
     k = rng.choice(['pair', 'pair', 'option', 'or', 'list'] if not comparable_only else ['pair', 'pair', 'option', 'or'])
     if k in ('pair', 'or'):
         return (k, gen_type(rng, depth - 1, comparable_only), gen_type(rng, depth - 1, comparable_only))
@@ -228,6 +234,10 @@ def gen_data(rng: random.Random, t, depth: int = 3):
         if rng.random() < 0.7:
             return ('str', rng.choice(SMALL_STRS))
         return ('str', ''.join(rng.choice('abAB z09~!') for _ in range(rng.randrange(0, 9))))
+    if k == 'bytes':
+        if rng.random() < 0.6:
+            return ('bytes', rng.choice([b'', b'\x00', b'\x01', b'\x00\x00', b'\xff', b'ab', b'\x7f\x80', b'abc']))
+        return ('bytes', bytes(rng.choice([0, 1, 127, 128, 255, 97]) for _ in range(rng.randrange(0, 7))))
     if k == 'bool':
         return ('bool', rng.random() < 0.5)
     if k == 'unit':
@@ -266,6 +276,8 @@ def near_data(rng: random.Random, t, d):
         return ('int', max(0, d[1] + rng.choice([-1, 1])) if k == 'nat' else d[1] + rng.choice([-1, 1]))
     if k == 'string' and rng.random() < 0.6:
         return ('str', d[1] + rng.choice(['', 'a', ' ', '~'])) if rng.random() < 0.5 else ('str', d[1][:-1])
+    if k == 'bytes' and rng.random() < 0.6:
+        return ('bytes', d[1] + rng.choice([b'', b'\x00', b'\xff'])) if rng.random() < 0.5 else ('bytes', d[1][:-1])
     return gen_data(rng, t)
 
 
@@ -380,8 +392,17 @@ class Gen:
                 add(4.0, lambda: self._arith(s))
             if top == T_BOOL and snd == T_BOOL:
                 add(3.0, lambda: ([(rng.choice(['AND', 'OR', 'XOR']),)], s[1:]))
-            if top == T_STRING and snd == T_STRING:
+            if top in (T_STRING, T_BYTES) and snd == top:
                 add(3.0, lambda: ([('CONCAT',)], s[1:]))
+            if top == T_NAT and snd == T_NAT:
+                add(2.0, lambda: ([(rng.choice(['AND', 'OR', 'XOR']),)], s[1:]))
+                add(1.5, lambda: self._shift(s))
+                if len(s) >= 3 and s[2] in (T_STRING, T_BYTES):
+                    add(5.0, lambda: ([('SLICE',)], [('option', s[2])] + s[3:]))
+            if top == T_INT and snd == T_NAT:
+                add(2.0, lambda: ([('AND',)], s[1:]))
+            if top in (T_STRING, T_BYTES):
+                add(1.5, lambda: self._slice(s))
         if top is not None:
             k = top[0]
             if k == 'pair':
@@ -399,9 +420,9 @@ class Gen:
                 if top[1][0] != 'operation':
                     add(2.5, lambda: self._map(s))
                 add(1.0, lambda: ([('SIZE',)], [T_NAT] + s[1:]))
-                if top[1] == T_STRING:
-                    add(2.5, lambda: ([('CONCAT',)], [T_STRING] + s[1:]))
-            if k == 'string':
+                if top[1] in (T_STRING, T_BYTES):
+                    add(2.5, lambda: ([('CONCAT',)], [top[1]] + s[1:]))
+            if k in ('string', 'bytes'):
                 add(1.0, lambda: ([('SIZE',)], [T_NAT] + s[1:]))
             if k == 'bool':
                 add(3.0, lambda: self._if(s, 'IF', s[1:], s[1:]))
@@ -411,7 +432,9 @@ class Gen:
                 add(0.8, lambda: ([('ABS',)], [T_NAT] + s[1:]))
                 add(0.8, lambda: ([('ISNAT',)], [('option', T_NAT)] + s[1:]))
                 add(0.6, lambda: ([('NEG',)], s))
+                add(0.6, lambda: ([('NOT',)], s))
             if k == 'nat':
+                add(0.6, lambda: ([('NOT',)], [T_INT] + s[1:]))
                 add(0.8, lambda: ([('INT',)], [T_INT] + s[1:]))
                 add(0.6, lambda: ([('NEG',)], [T_INT] + s[1:]))
         total = sum(w for w, _ in cands)
@@ -430,6 +453,19 @@ class Gen:
             self.budget -= sum(code_size(i) for i in ins)
             return ins, new
         return None
+
+    def _shift(self, s):
+        # LSL/LSR fail (run-time error, not FAILWITH) when the shift exceeds 256: mostly push a small shift first
+        op = self.rng.choice(['LSL', 'LSR'])
+        if self.rng.random() < 0.7:
+            k = self.rng.choice([0, 1, 2, 7, 8, 63, 64, 255, 256, 257])
+            return [('DROP', 1), ('PUSH', T_NAT, ('int', k)), ('SWAP',), (op,)], s[1:]
+        return [(op,)], s[1:]
+
+    def _slice(self, s):
+        o = self.rng.choice([0, 0, 1, 2, 3])
+        ln = self.rng.choice([0, 1, 1, 2, 3])
+        return [('PUSH', T_NAT, ('int', ln)), ('PUSH', T_NAT, ('int', o)), ('SLICE',)], [('option', s[0])] + s[1:]
 
     def _nil(self, s):
         t = gen_type(self.rng, 1)
@@ -535,7 +571,7 @@ class Gen:
                 opts.append([('SWAP',), ('SUB',)])
         if rest and rest[0] == ('list', a):
             opts.append([('CONS',)])
-        if rest and rest[0] == T_STRING and a == T_STRING:
+        if rest and rest[0] in (T_STRING, T_BYTES) and a == rest[0]:
             opts.append([('SWAP',), ('CONCAT',)])
             opts.append([('CONCAT',)])
         if opts and self.rng.random() < 0.6:
@@ -684,6 +720,10 @@ def obj_pval(v) -> str:
             return f'(PStr {chex(v.value.encode("ascii"))})'
         except Exception as e:  # noqa: BLE001
             raise Unrenderable(f'non-ASCII string {v.value!r}') from e
+    if p == 'bytes':
+        if not isinstance(v.value, (bytes, bytearray)):
+            raise Unrenderable(f'bytes holding {v.value!r}')
+        return f'(PBytes {chex(bytes(v.value))})'
     if p == 'bool':
         if not isinstance(v.value, bool):
             raise Unrenderable(f'bool holding {v.value!r}')
@@ -809,6 +849,8 @@ def data_micheline(d) -> Any:
         return {'int': str(d[1])}
     if k == 'str':
         return {'string': d[1]}
+    if k == 'bytes':
+        return {'bytes': d[1].hex()}
     if k == 'bool':
         return {'prim': 'True' if d[1] else 'False'}
     if k == 'unit':
@@ -834,6 +876,8 @@ def data_of_micheline(t, m):
             s = m['string']
             s.encode('ascii')
             return ('str', s)
+        if k == 'bytes':
+            return ('bytes', bytes.fromhex(m['bytes']))
         if k == 'bool':
             return ('bool', {'True': True, 'False': False}[m['prim']])
         if k == 'unit':
@@ -955,13 +999,41 @@ def instr_sweep(rng: random.Random, thorough: bool = False):
     for z in nats:
         for op in ('NEG', 'INT'):
             add([(T_NAT, ('int', z))], [(op,)])
+    for a in nats:
+        add([(T_NAT, ('int', a))], [('NOT',)])
+        for b in nats:
+            if thorough or rng.random() < 0.5:
+                for op in ('AND', 'OR', 'XOR'):
+                    add([(T_NAT, ('int', a)), (T_NAT, ('int', b))], [(op,)])
+        for b in ints:
+            if thorough or rng.random() < 0.4:
+                add([(T_INT, ('int', b)), (T_NAT, ('int', a))], [('AND',)])
+        for k in (0, 1, 8, 63, 64, 255, 256, 257, 300, big):
+            if thorough or rng.random() < 0.5:
+                add([(T_NAT, ('int', a)), (T_NAT, ('int', k))], [(rng.choice(['LSL', 'LSR']),)])
+    for z in ints:
+        add([(T_INT, ('int', z))], [('NOT',)])
+    for txt, ty, mk in (('abc', T_STRING, lambda x: ('str', x)), ('', T_STRING, lambda x: ('str', x)),
+                        (b'\x00\x01\x02', T_BYTES, lambda x: ('bytes', x)), (b'', T_BYTES, lambda x: ('bytes', x))):
+        for o in range(0, len(txt) + 2):
+            for ln in range(0, len(txt) + 2):
+                add([(T_NAT, ('int', o)), (T_NAT, ('int', ln)), (ty, mk(txt))], [('SLICE',)])
+        add([(T_NAT, ('int', big)), (T_NAT, ('int', 0)), (ty, mk(txt))], [('SLICE',)])
+        add([(T_NAT, ('int', 0)), (T_NAT, ('int', big)), (ty, mk(txt))], [('SLICE',)])
+    for b1 in [b'', b'\x00', b'ab', b'\xff\x00']:
+        add([(T_BYTES, ('bytes', b1))], [('SIZE',)])
+        for b2 in [b'', b'\x00', b'a', b'\xff']:
+            add([(T_BYTES, ('bytes', b1)), (T_BYTES, ('bytes', b2))], [('CONCAT',)])
+            add([(T_BYTES, ('bytes', b1)), (T_BYTES, ('bytes', b2))], [('COMPARE',)])
+    for l in ([], [b'a'], [b'\x00', b'', b'\x01\x02']):
+        add([(('list', T_BYTES), ('list', [('bytes', x) for x in l]))], [('CONCAT',)])
     for a in (True, False):
         add([(T_BOOL, ('bool', a))], [('NOT',)])
         for b in (True, False):
             for op in ('AND', 'OR', 'XOR'):
                 add([(T_BOOL, ('bool', a)), (T_BOOL, ('bool', b))], [(op,)])
     # COMPARE on every comparable shape
-    shapes = [T_INT, T_NAT, T_STRING, T_BOOL, T_UNIT, ('pair', T_INT, T_STRING), ('pair', ('pair', T_NAT, T_BOOL), T_INT),
+    shapes = [T_INT, T_NAT, T_STRING, T_BYTES, T_BOOL, T_UNIT, ('pair', T_BYTES, T_NAT), ('pair', T_INT, T_STRING), ('pair', ('pair', T_NAT, T_BOOL), T_INT),
               ('option', T_NAT), ('option', T_UNIT), ('option', ('option', T_UNIT)), ('or', T_INT, T_BOOL), ('or', T_UNIT, T_UNIT),
               ('pair', ('option', T_INT), ('or', T_STRING, T_NAT)), ('or', ('pair', T_UNIT, T_INT), ('option', T_STRING)),
               ('pair', T_UNIT, ('option', T_UNIT))]
